@@ -44,7 +44,10 @@ def run_loads(payloads):
     env['PYTHONPATH'] = common.REPO
     p = subprocess.run([common.PY, RUNNER, 'loads'], input='\n'.join('%s %s' % (enc, b.hex()) for enc, b in payloads) + '\n', cwd='/', env=env,
                        stdout=subprocess.PIPE, stderr=subprocess.PIPE, text=True, timeout=600)
-    return [json.loads(l) for l in p.stdout.split('\n') if l.startswith('{')]
+    out = [json.loads(l) for l in p.stdout.split('\n') if l.startswith('{')]
+    if len(out) != len(payloads):
+        raise common.Infra('audit runner (loads): %d results for %d payloads: %s' % (len(out), len(payloads), p.stderr[-300:]))
+    return out
 
 
 def shipped_allow_list():
@@ -113,6 +116,25 @@ def collect_pickles(path, limit=60):
     return out
 
 
+def neighbours(allow):
+    """payloads that only *locate* a global (GLOBAL / STACK_GLOBAL + STOP, nothing is called) whose name is a near miss of an allow-listed
+    one: dotted attribute paths below it (resolved by protocol >= 4), prefixes / suffixes / case changes, swapped or nested module names"""
+    out = []
+    seen = set()
+    for m, n in allow:
+        names = [(m, n), (m, n + '.__class__'), (m, n + '.__init__'), (m, n + '.__doc__'), (m, n + '.__name__.__class__'), (m, n + 's'), (m, n[:-1]), (m, n.upper()),
+                 (m, '_' + n), (m, n + ' '), (m + '.abc', n), (m.split('.')[0], m.split('.')[-1] + '.' + n), (n, m), (m, ''), (m + ' ', n), (m, n + '\\x00')]
+        for mm, nn in names:
+            if (mm, nn) in seen or '\n' in mm + nn:
+                continue
+            seen.add((mm, nn))
+            mb, nb = mm.encode('latin1', 'replace'), nn.encode('latin1', 'replace')
+            out.append(b'c' + mb + b'\n' + nb + b'\n.')
+            if len(mb) < 256 and len(nb) < 256:
+                out.append(b'\x80\x04\x8c' + bytes([len(mb)]) + mb + b'\x8c' + bytes([len(nb)]) + nb + b'\x93.')
+    return out
+
+
 def part_vm(chk, drv, recs):
     """model pickle VM vs the real unpickler on real and crafted payloads"""
     payloads = []
@@ -129,6 +151,7 @@ def part_vm(chk, drv, recs):
             b[rng.randrange(len(b))] = rng.getrandbits(8)
         crafted.append(bytes(b))
     payloads += [('latin1', b) for b in crafted]
+    payloads += [('latin1', b) for b in neighbours(shipped_allow_list() or sorted(ALLOWED_CLASSES))]
     shipped = shipped_allow_list()
     if shipped is None:
         chk.broken.append('correspondence pickle.events: the package has no replay_unpack.core.safe_pickle.ALLOWED_GLOBALS')
